@@ -262,7 +262,7 @@ class Ctx:
             shutil.rmtree(work, ignore_errors=True)
             return True
         # --- rejected: decide what it is
-        if r["inv"] and m is None:
+        if r["inv"]:
             # an invariant of the spec is violated on the state the *logged real results* forced:
             cx = out[out.find("Error:"):][:6000]
             self.violation("real trace drives spec %s into a state violating %s" % (module, r["inv"]),
@@ -322,7 +322,7 @@ class Ctx:
         ev = dict(property_id=self.pid, tier=self.tier, seed=self.seed, level=self.level, coverage=cov,
                   assumptions=self.assumptions, wall_s=round(wall, 1), violations=len(self.violations))
         # evidence describes runs against /repo itself; a self-test against a scratch worktree (VERIF_REPO) must not overwrite it
-        evdir = os.path.join(VERIF, "evidence") if REPO == "/repo" else os.path.join(VERIF, "out", "evidence-selftest")
+        evdir = os.path.join(VERIF, "evidence") if (REPO == "/repo" and not self.pid.startswith("X")) else os.path.join(VERIF, "out", "evidence-selftest")
         os.makedirs(evdir, exist_ok=True)
         with open(os.path.join(evdir, self.pid + ".json"), "w") as fh:
             json.dump(ev, fh, indent=1, default=str)
